@@ -1,38 +1,48 @@
-// Package sdfgen translates the distance-function code of sdf/sdf2.go, sdf/sdf3.go,
-// sdf/utils.go, the box algebra of sdf/box2.go, sdf/box3.go, M33/M44.MulBox of sdf/matrix.go and
-// the vector methods of vec/v2/v2.go, vec/v3/v3.go from the Go AST of the CURRENT source tree
-// into Gallina over the Ops record (coq/Generated/SdfExpr.v).
+// Package sdfgen translates the distance-function code of package sdf (sdf2.go, sdf3.go, utils.go, the box
+// algebra of box2.go / box3.go, M33/M44.MulBox, mesh2.go's per-segment functions, cams/flange/rack) and the
+// vector methods of vec/v2, vec/v3 (+ p2, v2i, v3i, conv) from the Go AST of the CURRENT source tree into
+// Gallina over the Ops record (coq/Generated/SdfExpr.v).  Every non-test .go file of each package directory is
+// read (build constraints evaluated with the tag `verif`): a declaration may live in, or move to, any file.
 // coq/Sdf/GenEq.v proves each generated definition equal to the hand-written model function
 // for all arguments, so an edit that changes what one of these Go functions computes breaks
 // a named proof obligation (Props/TRANSL.v) and not only a sampled comparison.
 //
-// Statement language: `x := e`, `x = e`, `x op= e`, `a, b = e1, e2`, `a, b := f(..)` (several results),
-// `var x T`, if/else blocks that only assign outer variables (-> `let x := if c then .. else ..`),
-// `if c { return e }` chains, `switch {case c: ..}` / `switch x {case a, b: ..}` (= if/else-if chains),
-// `return e`, `return e1, e2`, named results, `return func(..) .. {..}` (closures).
+// Statement language: `x := e`, `x = e`, `x op= e`, `x++`, `a, b = e1, e2`, `a, b := f(..)` (several results),
+// `var x T`, `var x T = e`, `var x = e`, function-local `const k = e` (the value stands for the name),
+// if/else blocks that only assign outer variables (-> `let x := if c then .. else ..`),
+// `if c { return e }` chains, `switch {case c: ..}` / `switch x {case a, b: ..}` / `switch init; tag {..}`
+// (= if/else-if chains; a tag that is not a variable is evaluated once into a temporary),
+// `return e`, `return e1, e2`, named results, `return func(..) .. {..}` (closures), the trailing bare
+// `return` of a procedure.
 // Loops (coq/Num/Loop.v): `for _, x := range xs {..}`, `for i := range xs`, `for i, x := range xs` and
 // `for i := 0; i < len(xs); i++` (also through `n := len(xs)`) -> range_loop over xs (one normal form: the body may
 // use the index, the element or xs[i]), `for i := a; i < n; i++` (`n > i`, `i += 1`) and `for i := range n`
 // -> count_loop, nested, with `continue` (also `if c {..; continue}`)
 // at the top level of the body; the loop state is the tuple of the variables of the enclosing scopes
-// the body assigns (locals, fields s.f of a struct under construction, slices written by index);
+// the body assigns (locals, fields s.f of a struct under construction, slices written by index), in order
+// of first assignment;
 // `xs[i] = e` -> list_set, `xs[i]` -> nth, `append(xs, e..)` -> ++, `make([]T, n)` -> repeat zero n,
-// `len(xs)`, `f(v, ..)` as a statement when f is a procedure of the package writing into its slice
+// `len(xs)`, fixed-size arrays `[4]T{..}` / `[...]T{..}` / `var a [4]T` (lists of known length; values, so never
+// aliased), `f(v, ..)` as a statement when f is a procedure of the package writing into its slice
 // parameter (mulVertices2).  Go `int` is Z (float64(i) = ofZ), v2i.Vec / v3i.Vec are tuples of Z,
 // sdf.Interval is a pair, a slice of SDFs is a list of (Evaluate, BoundingBox) pairs, a variadic
-// parameter is a list.  Refused (= broken tie): return / break inside a loop, labelled statements,
+// parameter is a list.  `for i, x := range v` over a slice the body writes by index: x is v[i] as it is when
+// iteration i starts.  Refused (= broken tie): return / break inside a loop, `for cond {}`, labelled statements,
 // a loop bound the body modifies, index assignment into a slice another variable may refer to.
 // Expressions: + - * /, unary minus, comparisons, && || !, exact literals, named constants,
 // vector/box fields, v2.Vec{..}/v3.Vec{..}/Box2{..}/Box3{..} (positional or keyed)/[]v2.Vec{..}, a[i] on
 // matrices, math.Abs/Max/Min/Sqrt/Floor/Ceil/Sin/Cos/Tan/Atan/Atan2/Acos/Mod, calls of other translated
 // functions and vector/box methods (translated themselves, on demand), methods of the same struct
-// (s.EvaluateSlow(p)), receiver fields s.f (they become parameters s_f of the definition), wrapped
+// (s.EvaluateSlow(p)) and functions taking the struct as a parameter (helper(s, p) inside a method of s:
+// the parameter plays the receiver), receiver fields s.f (they become parameters s_f of the definition), wrapped
 // SDFs and function-valued fields as opaque function parameters.
 // Normal forms: (-x)*y, x*(-y), (-x)/y, x/(-y) are emitted as -(x*y), -(x/y) (the same float64).
 // Constructors (functions returning SDF2/SDF3, with or without an error): `s := T{}` /
 // `s := T{f: e}`, `s.f = e` (-> `let s_f := e`), `return nil, err` (-> None), `return &s, nil`
-// (-> Some (T.Evaluate applied to the fields, T.BoundingBox applied to the fields)); a wrapped
+// (-> Some (T.Evaluate applied to the fields, T.BoundingBox applied to the fields)), `return Other(..)` and
+// `x, err := Other(..); if err != nil { return nil, err }; ..` (-> a match on the callee's result); a wrapped
 // SDF argument is a pair of parameters (its Evaluate, its BoundingBox) and is assumed non-nil.
+// Every generated definition is registered in the unfold database `sdfgen` (Sdf/GenEqTac.v looks through helpers).
 // Anything else inside a target function is an error (= broken tie), never skipped.
 package sdfgen
 
